@@ -155,7 +155,7 @@ def check_c15(ck, tier, replay=None):
     for o in ck.obl:
         if o['status'] == 'sat':
             rep = common.write_replay('C15', o['name'], {}, {'obligation': o['name'], 'model': (o.get('detail') or {}).get('model')})
-            ok, why = replay(o['name'], (o.get('detail') or {}).get('model') or {})
+            ok, why = replay_native(o['name'], (o.get('detail') or {}).get('model') or {})
             ck.violation('C15 ' + o['name'].split(':')[0] + ':' + o['name'].split(':')[1][:40] if ':' in o['name'] else 'C15 ' + o['name'][:60], o['name'] + ' ; ' + why, rep, reproduced=ok)
 
 def _num(v, d=0.0):
@@ -190,7 +190,7 @@ def validate(ck, mod):
             if bad < 4: print('  validation mismatch', mine, nat)
     ck.add_validation('interpreter(float mode) vs native build: CalcStaticEnergy_site on 40 random site pairs of all rank combinations (8 ulp tolerance for libm pow/sqrt)', len(lines), bad == 0, '%d mismatches' % bad)
 
-def replay(name, mdl):
+def replay_native(name, mdl):
     """native evaluation of the violated identity on the model"""
     import re
     m = re.match(r'ranks \((\d),(\d)\): (.*)', name)
